@@ -43,6 +43,28 @@ Theorem C15_http_relay_all_segmentations : forall exs its,
     rev (s_fwd s) = fwd_of exs /\ rev (s_del s) = del_of exs /\ s_recvd s = N.of_nat (length exs).
 Proof. exact relay_all_segmentations. Qed.
 
+(* every reply the backend gave for a complete request reaches the client, whole and in
+   order, whatever follows those requests in the client's stream (from a write of its own
+   on): more requests, a malformed one, an incomplete one, nothing ... *)
+Theorem C15_http_replies_survive_failing_next_request : forall exs its tail,
+  Forall ex_ok exs -> stream_of its = stream exs -> waits_ok (lens_of exs) 0 its ->
+  exists more_f more_d,
+    rev (s_fwd (fst (run (its ++ tail) (st0 (map x_rsegs exs))))) = fwd_of exs ++ more_f /\
+    rev (s_del (fst (run (its ++ tail) (st0 (map x_rsegs exs))))) = del_of exs ++ more_d.
+Proof. exact replies_survive_failing_next. Qed.
+
+(* ... and in general, from any state and for any continuation (backend closed or answering
+   garbage, client gone): what has been forwarded and delivered is only ever extended *)
+Theorem C15_http_relayed_stays_relayed : forall its s,
+  exists mf md, s_fwd (fst (run its s)) = mf ++ s_fwd s /\ s_del (fst (run its s)) = md ++ s_del s.
+Proof. exact run_monotone. Qed.
+
+(* once the backend has closed its connection the next request ends the relay without
+   touching what the client has been sent *)
+Theorem C15_http_backend_closed_ends_relay : forall f s n m,
+  frame_req (s_buf s) = QComplete n m -> s_bclosed s = true -> drain (S f) s = (s, Some EBackendClosed).
+Proof. exact backend_closed_keeps_replies. Qed.
+
 (* the loop's fuel never runs out *)
 Theorem C15_http_fuel_suffices : forall fuel s,
   (length (s_buf s) < fuel)%nat -> snd (drain fuel s) <> Some EFuel.
@@ -113,14 +135,23 @@ Theorem C15_copy_stream_relayed : forall peeked accepted segs reply, local_kind 
   copy_model (server_wrap peeked accepted) segs reply = mkRaw 1 segs reply 1.
 Proof. exact copy_stream_behind_server. Qed.
 
+(* (a datagram is read with ONE Read: whole on a port of its own, and on a port shared with a
+   detector service as long as it fits the server's 1024-byte peek) *)
 Theorem C15_copy_datagram_relayed : forall peeked accepted d reply more, local_kind accepted = AUdp ->
-  copy_model (server_wrap peeked accepted) [d] (reply :: more) = mkRaw 1 [d ++ []] [reply] 1.
+  has_peek accepted = false -> (peeked = false \/ (length d <= PEEK)%nat) ->
+  copy_model (server_wrap peeked accepted) [d] (reply :: more) = mkRaw 1 [d] [reply] 1.
 Proof. exact copy_datagram_behind_server. Qed.
+
+(* defect of the unchanged code: on a shared port a longer datagram is cut at 1024 bytes *)
+Theorem C15_datagram_cut_on_shared_port_refuted :
+  exists d, w_backend (copy_model (server_wrap true KDummyUdp) [d] [[1]%N]) <> [d].
+Proof. exact datagram_cut_on_shared_port_refuted. Qed.
 
 (* dns-proxy behind the server: a datagram is forwarded, its answer returned, one event -
    whether or not it unpacks as a DNS message (one that does not is recorded with its payload) *)
 Theorem C15_dns_datagram_relayed : forall peeked accepted d parses reply more, local_kind accepted = AUdp ->
-  dns_model (server_wrap peeked accepted) [d] parses (reply :: more) = mkRaw 1 [d ++ []] [reply] 1.
+  has_peek accepted = false -> (peeked = false \/ (length d <= PEEK)%nat) ->
+  dns_model (server_wrap peeked accepted) [d] parses (reply :: more) = mkRaw 1 [d] [reply] 1.
 Proof. exact dns_datagram_behind_server. Qed.
 
 (* io.ReadFull / readMsg over any segmentation: a length-framed message is read whole and
@@ -274,3 +305,7 @@ Print Assumptions C15_copy_both_directions_complete.
 Print Assumptions C15_copy_stops_when_both_directions_ended.
 Print Assumptions C15_ssh_backend_data_after_client_eof_delivered.
 Print Assumptions C15_ssh_client_data_before_backend_end_delivered.
+Print Assumptions C15_datagram_cut_on_shared_port_refuted.
+Print Assumptions C15_http_replies_survive_failing_next_request.
+Print Assumptions C15_http_relayed_stays_relayed.
+Print Assumptions C15_http_backend_closed_ends_relay.
